@@ -166,6 +166,11 @@ pub fn judge_binary(data: &[u8], how: &str, decs: &[DecType], cx: &mut Cx) -> BT
             cx.stat("c13:suffix-cases");
             let alone = decode_as(dec, &data[..n], false);
             flush_panics(cx, "decode of the item alone");
+            if alone.panicked {
+                // a panic is an outcome too: with the suffix the same item returned normally
+                cx.push(viol("C13", format!("C13/outcome-depends-on-suffix/{d}/item-panics-alone"),
+                    format!("item {} panics when decoded alone but returns normally when followed by {} bytes", hex(&data[..n]), data.len() - n)));
+            }
             if !alone.panicked {
                 match (&alone.view, &out.view) {
                     (Some(a), Some(b)) => {
@@ -317,6 +322,10 @@ pub fn judge_stream(items: &[Vec<u8>], suffix: &[u8], dec: DecType, cx: &mut Cx)
         }
         let out = decode_as(dec, &buf[pos..], false);
         flush_panics(cx, &format!("decode[{d}] in stream at {pos} of {}", hex(&buf)));
+        if out.panicked != alone[idx].panicked {
+            cx.push(viol("C13", format!("C13/outcome-depends-on-suffix/{d}/{}", if out.panicked { "panics-in-stream" } else { "item-panics-alone" }),
+                format!("frame {idx} {} : panic alone = {}, panic in the stream = {}", hex(it), alone[idx].panicked, out.panicked)));
+        }
         if out.panicked || alone[idx].panicked {
             break;
         }
